@@ -29,9 +29,14 @@ for x in r['results']:
     else:
         cell = '*%s*' % status.split(':')[0]
     rows.append('| `%s` | %s | %s | %s | %s | %s |' % (x['id'], x['kind'], what, cell, runs, silent))
-summary = ('%d changes: %d caught, %d missed, %d masked, %d skipped (patch no longer applies); %d runs per check '
-           '(quick-tier size 24000 if not found with fewer); committed example replays %s.' % (
-               len(r['results']), r['caught'], r['missed'], r.get('masked', 0), r['skipped'], r['runs_per_check'],
+n_neutral = sum(1 for x in r['results'] if 'neutralised' in str(x.get('status')))
+n_expected = sum(1 for x in r['results'] if str(x.get('status')).lower() == 'missed' and x.get('assessment'))
+summary = ('%d changes: %d caught, %d missed (%d of them expected: outside what the property states or beyond a stated '
+           'limit), %d masked, %d skipped (%d reverse patches that no longer apply to the edited tree - the hand-written '
+           'stand-ins M31, M36-M39 take their place - and %d seeded changes neutralised by later fixes of the library); '
+           '%d runs per check (quick-tier size 24000 if not found with fewer); committed example replays %s.' % (
+               len(r['results']), r['caught'], r['missed'], n_expected, r.get('masked', 0), r['skipped'],
+               r['skipped'] - n_neutral, n_neutral, r['runs_per_check'],
                'also replayed' if r['examples_replayed_first'] else 'NOT replayed (the search alone has to find the change)'))
 table = summary + '\n\n' + '\n'.join(rows)
 p = os.path.join(HERE, 'DESIGN.md')
